@@ -66,6 +66,46 @@ CLAIMED = {
         note="trusted: pyvc, z3/cvc5, assumed contracts of the feature functions / xgboost (values in [0,1], function of the rows)",
         technique="contract-based deductive verification (loop invariant over the scored sub-list) + syntactic frame check + bounded threshold sweep",
         design="5/C13"),
+    "C05": dict(
+        category="other",
+        text="Deductive: DataLoader.__next__ is verified for all sources and batch sizes (each batch is the next consecutive slice, a short batch stops the iteration). "
+             "The rest of the chain (pandas filtering in preprocess, exception swallowing in __rebalance_batch) is outside the verified subset, so the property as a whole is decided by a "
+             "bounded stand-in: lists of valid / repeated / malformed rows at every batch size 1..n+1 in four input forms against the exact expected row correspondence. "
+             "Two open known findings (unparsable rows dropped; batch lost on a malformed string) are accepted only in their exact mechanism.",
+        note="bounded; two open known findings", technique="contract-based deductive verification of the batching iterator + bounded stand-in on the real Balancer with an exact row-correspondence oracle",
+        design="5/C05"),
+    "C06": dict(
+        category="other",
+        text="Deductive: merge_stats adds key-wise over the union of keys for all dictionaries; MCSSearch.find attaches to every row the search result that carries the row's own id "
+             "(id -> index plumbing) and Validator.check / predict / MCSBasedMethod.run are row-local by their verified postconditions. Scheduling is outside this technique, so the "
+             "relational claim itself is a bounded stand-in: every reaction alone vs permuted / partitioned batches and worker counts 1, 2, 4, statistics summed over the partition.",
+        note="bounded for the relational claim; joblib modelled as an order-preserving map", technique="contract-based deductive verification of the row-local stage functions and merge_stats + bounded alone-vs-grouped comparison",
+        design="5/C06"),
+    "C10": dict(
+        category="other",
+        text="Deductive: MCSSearch.find (every unsolved row gets the search record carrying its own id or keeps None) and the side-field synchrony established by Validator.check. "
+             "The selection step is checked on the real get_largest_condition exhaustively over small result tables (all 1-reaction tables, 2-reaction tables sampled / exhaustive in the thorough tier); "
+             "molecule multiset and substructure containment are checked on real search results, also with each substructure search cancelled in turn.",
+        note="bounded for selection, multiset and containment; RDKit trusted", technique="contract-based deductive verification of the attribution plumbing + exhaustive small-table check of the real selection function + bounded search runs with cancelled searches",
+        design="5/C10"),
+    "C11": dict(
+        category="fault_enumeration",
+        text="Fault plans are injected in-process into the real pipeline: every single search job / fragment job raising or timing out (sampled in quick), all conditions of one reaction failing, random subsets, all-fail plans; "
+             "each run is judged by the C01 / C03 row invariants, row count, and equality of the rows of reactions not hit. Deductive support: MCSBasedMethod.run catches every exception per row and records it; find leaves an issue on every unsolved row.",
+        note="faults are outcomes (raise / timeout result), not real wall-clock races; n_jobs=1", technique="contract-based deductive verification of the containment code + enumerated fault injection on the real pipeline",
+        design="5/C11"),
+    "C12": dict(
+        category="other",
+        text="Bounded: histories of runs over a shared cache directory (same / overlapping batches, thresholds, batch sizes) and simulated crash points of the cache write, each compared with the uncached run; "
+             "cache-key injectivity exhaustively over a small structured family of (batch, configuration) pairs; plus a syntactic obligation on which configuration fields reach the key.",
+        note="real kills / fsync / concurrent writers not modelled", technique="bounded stand-in (run histories, crash-state simulation, exhaustive small key-injectivity test) + syntactic frame obligation",
+        design="5/C12"),
+    "C18": dict(
+        category="other",
+        text="Deductive: predict sets confident_cnt >= 0 and leaves other statistics alone; MCSBasedMethod.run keeps mcs_solved <= mcs_applied <= rows; merge_stats is additive. "
+             "The equalities between counts and returned rows are a bounded stand-in: statistics vs rows on the real Balancer over batch sizes and thresholds incl. observed confidences and 1.0.",
+        note="bounded for the count = rows equalities", technique="contract-based deductive verification of counter bounds and merge_stats + bounded stats-vs-rows comparison",
+        design="5/C18"),
 }
 
 checks = []
